@@ -143,6 +143,17 @@ func (api *API) mapDecodeBasedOnType(ctx context.Context, mapVal any, value refl
 			return api.mapDecodeArray(ctx, mapVal, value.Elem(), sliceValueType, ts, opts)
 		}
 
+		// a pointer to anything else (map, slice, string, number, another pointer): the value it points to is read, as
+		// in the binary form
+		if value.IsNil() {
+			value.Set(reflect.New(elemType))
+		}
+		if elemType.Kind() == reflect.Ptr {
+			return api.mapDecode(ctx, mapVal, value.Elem(), ts, opts)
+		}
+
+		return api.mapDecodeBasedOnType(ctx, mapVal, value.Elem(), elemType, ts, opts)
+
 	case reflect.Struct:
 		// a uint256 number that is held as a big.Int value (see encodeBasedOnType)
 		if valueType == bigIntPtrType.Elem() {
